@@ -103,6 +103,11 @@ func checkC18(c *Ctx) {
 	// the message is hashed from a cleared state (the partially blind verifier hands out its long-lived hash)
 	c.orderRule(p, "C18.pss", "the hash is reset before the message is absorbed", p.Func(cm, "", "EncodeMessageEMSAPSS"),
 		"call of hash.Hash.Reset", p.isCallTo(-1, nil, "invoke (hash.Hash).Reset"), "call of hash.Hash.Write", p.isCallTo(-1, nil, "invoke (hash.Hash).Write", "invoke (io.Writer).Write"))
+	// s^e mod N has to fit into emLen octets: when the modulus has 8k+1 bits the encoded message is one octet
+	// shorter than the modulus and a representative with a non-zero leading octet is no PSS encoding at all
+	// (crypto/rsa refuses it; dropping the octet instead accepts a second signature string)
+	c.guard(p, "C18.pss", "a message representative longer than emLen octets is refused", vp,
+		GuardSpec{BinAssumes: []BinAssume{binDesc(vp, "m.BitLen() > 8*emLen", `call:\(\*math/big\.Int\)\.BitLen > .*`, latTrue)}})
 	c.guard(p, "C18.pss", "verifyPSS accepts only through EMSA-PSS verification", vp, GuardSpec{Assumes: []Assume{calleeAssume(latNonNil, -1, cm+".emsaPSSVerify")}})
 	c.guard(p, "C18.pss", "VerifyMessageSignature accepts only through verifyPSS", p.Func(cm, "", "VerifyMessageSignature"), GuardSpec{Assumes: []Assume{calleeAssume(latNonNil, -1, cm+".verifyPSS")}})
 	c.guard(p, "C18.pss", "public Verify delegates", p.Func(br, "Verifier", "Verify"), GuardSpec{Assumes: []Assume{calleeAssume(latNonNil, -1, cm+".VerifyMessageSignature")}})
